@@ -365,6 +365,86 @@ def e2e_case(ctx, seed):
         t.close()
 
 
+def abort_case(ctx, seed):
+    """A build that is abandoned while a console-pool command owns the terminal: a command that itself succeeds makes ninja stop
+    (the dyndep file it has written cannot be loaded).  What silent commands printed before that - and the output of the
+    command whose completion stopped the build - was held back; "shown afterwards with none of it lost" holds on this way out
+    too.  Judged only for commands that provably ended before the one that stops the build."""
+    rng = random.Random(seed)
+    sc = {"id": "C20a-%d" % seed, "sources": {"a.c": "// a\n", "e.src": "// served\n", "b.in": "// scan input\n"}, "stmts": [], "pools": {}, "defaults": []}
+    expect = {}
+    cons = St("a", ["a.out"], ins=["a.c"], pool="console")
+    cons["vtool_args"] = ["--say-hex", hx("<<CB:a>>\n"), "--sleep-after", str(rng.choice((1200, 1600))), "--say-hex", hx("<<CE:a>>\n")]
+    sc["stmts"].append(cons)
+    nquiet = rng.randint(1, 3)
+    for i in range(nquiet):
+        sc["sources"]["d%d.c" % i] = "// d%d\n" % i
+        st = St("d%d" % i, ["d%d.o" % i], ins=["d%d.c" % i])
+        args, text = [], ""
+        for k in range(rng.randint(1, 3)):
+            a = chunk(rng, "d%d" % i, k, "o")
+            args += ["--say-hex", hx(a)]
+            text += a
+        st["vtool_args"] = args + ["--sleep-before", str(rng.choice((0, 20, 60)))]
+        sc["stmts"].append(st)
+        expect[st["outs"][0]] = text.encode("latin-1")
+    # the command whose completion stops the build: a scanner that writes a dyndep file for a statement that does not exist
+    b = St("b", ["bad.dd"], ins=["b.in"], kind="scan", serves=[["nosuch.o", "e.src"]])
+    btext = chunk(rng, "b", 0, "o")
+    b["vtool_args"] = ["--say-hex", hx(btext), "--sleep-before", str(rng.choice((350, 500)))]
+    sc["stmts"].append(b)
+    expect["bad.dd"] = btext.encode("latin-1")
+    e_ = St("e", ["e.o"], ins=["e.src"], oins=["bad.dd"], dyndep="bad.dd", dd=True)
+    sc["stmts"].append(e_)
+    t = e2e.Tree(sc)
+    try:
+        mode = rng.choice(("pipe", "pipe", "pty"))
+        env = {"TERM": "xterm" if mode == "pty" else "dumb"}
+        args = ["-j8"]
+        rc, so, se = t.run(args, env=env) if mode == "pipe" else run_pty(t, args, env)
+        ctx.evaluations += 1
+        rep = {"seed": seed, "mode": mode, "family": "abort-under-console-lock"}
+        what = "abort scenario %d (%s)" % (seed, mode)
+        if rc is None:
+            ctx.inconclusive += 1
+            return
+        sig = util.san_signature((so + se).decode("latin-1"))
+        if sig:
+            ctx.violation("C20/sanitizer/" + sig, "%s: %s" % (what, (so + se).decode("latin-1")[-1500:]), rep)
+            return
+        rep["stdout_hex"] = so.hex()[:20000]
+        ev = t.events()
+        ended = {e["id"]: e["t"] for e in ev if e["e"] == "E"}
+        started = {e["id"]: e["t"] for e in ev if e["e"] == "S"}
+        if rc == 0 or "bad.dd" not in ended or "a.out" not in started or started["a.out"] > ended["bad.dd"]:
+            ctx.count("abort_scenarios_not_as_planned")        # (the console command had not started yet, or the build went through)
+            return
+        if b"<<CB:a>>" not in so:
+            ctx.count("abort_scenarios_not_as_planned")
+            return
+        ctx.count("abort_scenarios_" + mode)
+        for o, text in expect.items():
+            if o not in ended or ended[o] > ended["bad.dd"]:
+                continue
+            if mode == "pipe":
+                text = CSI.sub(b"", text)
+            if not text:
+                continue
+            ctx.count("blocks_checked_abort")
+            cnt = so.count(text)
+            if cnt != 1:
+                ctx.violation("C20/output-%s/%s/build-abandoned-under-console-lock" % ("lost-or-split" if cnt == 0 else "repeated", mode),
+                              "%s: output of %s (ended before the command that stopped the build) appears %d times (expected once): %r; ninja said %r" %
+                              (what, o, cnt, text[:100], (so + se)[-200:]), rep)
+                return
+            if so.find(b"<<CB:a>>") < so.find(text) < so.find(b"<<CE:a>>") and b"<<CE:a>>" in so:
+                ctx.violation("C20/console-output-not-contiguous/%s/build-abandoned" % mode, "%s: output of %s inside the console command's block" % (what, o), rep)
+                return
+            ctx.nontrivial((seed, o, "abort"))
+    finally:
+        t.close()
+
+
 # ------------------------------------------------------------------------------------------ counters (nsim)
 def nsim_counters(ctx, rng, n):
     from .c11 import dyndep_scenario
@@ -447,6 +527,8 @@ def run(ctx):
     seeds = [rng.randint(1, 10 ** 9) for _ in range(250 if quick else 6000)]
     from .c07 import safe
     e2e.parallel(lambda s: safe(ctx, e2e_case, ctx, s), seeds)
+    aseeds = [rng.randint(1, 10 ** 9) for _ in range(24 if quick else 400)]
+    e2e.parallel(lambda s: safe(ctx, abort_case, ctx, s), aseeds)
     ctx.rule = ("%d e2e scenarios of 2..7 commands with 0..5 tagged stdout/stderr chunks each (pipe or pty; default, NINJA_STATUS and --status formats with every printed counter parsed back; "
                 "-j 1..8, failures, restat, console pool) + %d nsim builds with the status tap; distinct_nontrivial = distinct (scenario, "
                 "command) output blocks located and verified + builds whose total changed mid-build" % (len(seeds), 1500 if quick else 30000))
